@@ -462,3 +462,8 @@ def _as_symbolic_range(E, it):
 
 
 LIB.as_symbolic_range = _as_symbolic_range
+
+
+# jnp.concat is the Array-API alias of jnp.concatenate (JAX documentation)
+if "jax.numpy.concat" not in LIB.funcs:
+    LIB.funcs["jax.numpy.concat"] = LIB.funcs["jax.numpy.concatenate"]
